@@ -127,6 +127,20 @@ def cases(tier, seed):
             if dA == dB:
                 add("realign.index", dict(rdims=[dA, dB], cdims=[dA2, dB2], dimform="omitted"), "realignment/omitted")
                 add("realign.index", dict(rdims=[dA, dB], cdims=[dA2, dB2], dimform="scalar"), "realignment/scalar")
+    # rectangular operators one of whose factors is a row or a column (dimension 1 on one side only)
+    for rd, cd in (([1, 2], [3, 2]), ([2, 1], [2, 3]), ([3, 2], [1, 2]), ([2, 1, 2], [2, 3, 1])):
+        n_ = len(rd)
+        for size in range(1, n_ + 1):
+            for S in itertools.combinations(range(n_), size):
+                add("ptranspose.index", dict(sys=list(S), rdims=rd, cdims=cd, sysform="list", dimform="2row"), "partial_transpose/rect-with-dimension-1")
+    # `dim` omitted for a rectangular operator whose row and column counts are perfect squares: two subsystems, row dims (r, r), column dims (c, c)
+    for r_, c_ in ((2, 3), (3, 2), (2, 4)):
+        for S in ([0], [1], [0, 1]):
+            add("ptranspose.index", dict(sys=S, rdims=[r_, r_], cdims=[c_, c_], sysform="list", dimform="omitted"), "partial_transpose/rect-dim-omitted")
+    # realignment of sparse operators (returned dense)
+    for fmt in ("csr", "coo", "csc", "csr_array"):
+        add("realign.index", dict(rdims=[2, 3], cdims=[2, 3], dimform="list", sparse=fmt), "realignment/sparse-input")
+        add("realign.index", dict(rdims=[2, 2], cdims=[3, 2], dimform="2row", sparse=fmt), "realignment/sparse-input")
     # `sys` omitted: the second subsystem (index 1) is transposed, whatever the number of subsystems listed in `dim`
     for d in ([2, 2], [2, 3], [3, 2], [2, 3, 2], [3, 2, 2], [2, 2, 3, 2], [1, 3, 2]):
         add("ptranspose.index", dict(sys=[1], rdims=d, cdims=d, sysform="list", dimform="list", sys_omitted=True), "partial_transpose/sys-omitted-dim-given")
